@@ -26,8 +26,8 @@ CHECKS = {
             "Crash = process death with ordered durable writes and atomic batches. The cache-file crash states of the shutdown save are enumerated in every run from an strace recording of the real SaveCache (every prefix of the recorded file operations plus cuts inside each write), so the tree is judged on its own system calls; needs strace (present in the sandbox; if missing the sub-check reports that in the evidence and is skipped).",
             "DESIGN.md §5 C04", "stepsim"),
     "C05": ("fault_enumeration",
-            "deterministic simulation with crash-point enumeration: every durable-write boundary of block application on a real follower (nested depth 2), restart, seeded re-delivery order, prefix-equality oracle",
-            "For seeded chains every durable-write boundary of the triggering block application (1-3 blocks applied at once) is a crash point and, for each, every boundary of the seeded re-delivery phase is a nested crash point; after every restart the image must have a proposer-identical block for every height up to the recorded chain height and a state for exactly that height; finally the follower must reach the proposer's chain. Exhaustive over boundaries of the enumerated applications, sampled over chains.",
+            "deterministic simulation with crash-point enumeration: every durable-write boundary of block application on a real follower (nested depth 2), restart, seeded re-delivery order (or, in DA-driven families, the real RetrieveLoop + SyncLoop over a seeded DA layout), prefix-equality oracle",
+            "For seeded chains every durable-write boundary of the triggering block application (1-3 blocks applied at once) is a crash point and, for each, every boundary of the seeded re-delivery phase is a nested crash point; after every restart the image must have a proposer-identical block for every height up to the recorded chain height and a state for exactly that height; finally the follower must reach the proposer's chain. A third of the families are DA-driven: the chain lies on the simulated DA layer (header and data of a block at different heights, later headers below earlier data), the real RetrieveLoop and SyncLoop scan and apply it, crash points cut the durable writes of that phase, in-memory queues die with the process and the scan alone must bring the restarted node to the proposer's height. Exhaustive over boundaries of the enumerated applications, sampled over chains.",
             "Crash = process death with ordered durable writes and atomic batches.",
             "DESIGN.md §5 C05", "stepsim"),
     "C11": ("fault_enumeration",
@@ -61,8 +61,8 @@ CHECKS = {
             "Junk excludes third-party self-consistent forgeries (C03). A DA never claims 'not found' for a height holding blobs.",
             "DESIGN.md §5 C09", "stepsim"),
     "C15": ("exploration",
-            "deterministic simulation: three real KV executors over simulated disks driven with seeded interleavings of execute/finalize/inject/init/reopen; differential (metamorphic) root comparison against a reference instance",
-            "Proposer-like and follower-like instances get finalize calls at different times, mempool traffic, repeated InitChain and reopen; a reference instance only executes. Per block all three state roots must be equal; malformed blocks must fail and change nothing; re-execution and repeated initialization must be idempotent. Sampling, not proof.",
+            "deterministic simulation: three real KV executors over simulated disks driven with seeded interleavings of execute/finalize/inject/init/reopen; differential (metamorphic) root comparison against a reference instance plus a last-writer-wins key/value model",
+            "Proposer-like and follower-like instances get finalize calls at different times, mempool traffic, repeated InitChain and reopen; a reference instance only executes. Blocks carry several writes per key and differently spelled keys that normalise to one datastore key. Per block all three state roots must be equal and every key must read back the value of the last transaction that wrote it; malformed blocks must fail and change nothing; re-execution and repeated initialization must be idempotent. Sampling, not proof.",
             "Executor database is the simulated disk via a hook constructor.",
             "DESIGN.md §5 C15", "stepsim"),
     "C16": ("exploration",
@@ -86,14 +86,14 @@ CHECKS = {
             "The harness is the only client (LastBatchData = previous non-empty answer).",
             "DESIGN.md §5 C20", "stepsim"),
     "C10": ("exploration",
-            "deterministic simulation: seeded submit/next/restart/crash histories on the real single sequencer over a simulated journalled disk vs a FIFO model; porcupine linearizability check of concurrent histories",
+            "deterministic simulation: seeded submit/next/restart/crash histories on the real single sequencer over a simulated journalled disk vs a FIFO model; porcupine linearizability check of concurrent histories whose interleaving at every datastore operation is decided by a seeded park-and-release scheduler",
             "Seeded histories (identical contents, empty, foreign chain id, beyond the bound, restart = new sequencer on the durable image, crash cutting the durable write inside an operation) are checked operation by operation against a FIFO model with candidate sets for undetermined operations, "
-            "followed by restart-and-drain; concurrent client histories are checked with porcupine. Sampling, not proof.",
+            "followed by restart-and-drain; per scenario one concurrent history (4 client tasks released one at a time at datastore operations by a seeded scheduler, shared and unique contents, then restart and drain) is checked with porcupine against the same model. Sampling, not proof.",
             "Simulated disk iterates in key order like badger; crash model is process death.",
             "DESIGN.md §5 C10", "stepsim"),
     "C13": ("exploration",
             "whole-node simulation under the synctest fake clock with the race detector: all background loops of an aggregator and a full node as real concurrent goroutines against simulated DA/execution/disk, seeded stimuli, latencies (time dilation), DA faults and stop instants; schedule-independent oracles",
-            "Per run the seed fixes block/DA times, lazy/normal mode, pending limit, genesis in the past or future, transaction arrivals, DA fault script, DA and execution latencies, run length and the stop instant (biased into the start-up delay). Oracles valid on every schedule: no race-detector report, every worker returns within 1 s of simulated time after the stop (never-stopping workers are reported through an emergency path), and post-mortem C01 chain validity, C02 prefix equality, C06 submission/watermark soundness, C07 finalize order and bound. Sampling of interleavings, not proof.",
+            "Per run the seed fixes block/DA times, lazy/normal mode, pending limit, genesis in the past or future, transaction arrivals, DA fault script, DA and execution latencies, run length and the stop instant (biased into the start-up delay). Oracles valid on every schedule: no race-detector report, every worker returns within 1 s of simulated time after the stop (never-stopping workers are reported through an emergency path), and post-mortem C01 chain validity, C02 prefix equality, C06 submission/watermark soundness, C07 finalize order and bound. Directed: the real header/data sync services receive their first item (and, after a restart, three further headers) while other tasks look up the store's head; all 2^11 choice prefixes of a park-and-release scheduler over the datastore operations are run in child processes and none may end the process. Sampling of interleavings, not proof.",
             "Two halves, both run by bin/check C13: (1) Manager-level configuration with the race detector (all ten loops of an aggregator and a full node as concurrent goroutines; P2P replaced by a gossip goroutine); (2) whole node.FullNode objects (real Run, P2P client, go-header/gossipsub sync services over a libp2p mocknet, shutdown sequence) WITHOUT the race detector, because this toolchain's race runtime crashes in that configuration. Interleavings are chosen by the Go scheduler (time dilation only spreads activities over simulated time): replay is seed-exact for stimuli and faults, best-effort for the interleaving (20 attempts).",
             "DESIGN.md §4.5, §5 C13", "netsim"),
     "C14": ("exploration",
